@@ -87,6 +87,10 @@ class Module:
         self.src = path.read_text(encoding="utf-8")
         self.sha = hashlib.sha256(self.src.encode()).hexdigest()
         self.tree = ast.parse(self.src, filename=str(path))
+        # one spelling for negated conditionals (see sa/canon.py)
+        from .canon import canonicalise
+
+        self.canon = canonicalise(self.tree)
         # undo pure renames of locals (see sa/alpha.py): verdicts are computed on an alpha-equivalent program
         from .alpha import normalise
 
@@ -349,3 +353,25 @@ def stmt_of(node: ast.AST) -> ast.stmt | None:
     while p is not None and not isinstance(p, ast.stmt):
         p = parent(p)
     return p  # type: ignore[return-value]
+
+
+def oriented(i: ast.If, want: str):
+    """(branch taken when `want` holds, other branch) for an If whose test is `want` or its canonical
+    negation (sa/canon.py flips `x is not None` / `x != y` / `x not in y` / `not x` tests that have an else);
+    None when the test is neither."""
+    t = norm(i.test)
+    if t == want:
+        return i.body, i.orelse
+    neg = {" is not ": " is ", " != ": " == ", " not in ": " in "}
+    pos = {v: k for k, v in neg.items()}
+    cands = set()
+    for a, b in list(neg.items()) + list(pos.items()):
+        if a in want:
+            cands.add(want.replace(a, b, 1))
+    if want.startswith("not "):
+        cands.add(want[4:])
+    else:
+        cands.add("not " + want)
+    if t in cands:
+        return i.orelse, i.body
+    return None
